@@ -1,5 +1,6 @@
 import DepsDev.Drive.Loop
 import DepsDev.Model.Resolve.Npm
+import DepsDev.Props.C06
 open DepsDev
 open DepsDev.Resolve.Npm
 
@@ -7,6 +8,10 @@ open DepsDev.Resolve.Npm
 
   resolve t=<hex>,<hex>,…  <U>  root=<name>@<ver>  fuel=<n>
       → `ok N=… E=… T=…` | `err` | `timeout` | `bad-universe`
+  classify t=…  <U>
+      → `ok wf=<b> aliasfree=<b> latestlast=<b> optplain=<b> bundlefree=<b>`: the hypotheses of the
+        theorems of `Props/C06.lean`, evaluated by their own decision procedures (the harness's
+        known-finding classifier must agree)
 
 All strings are interned by the harness: the table `t=` (ignored here) lists them,
 every other field uses indices into it (0 `""`, 1 `*`, 2 `bundle`, 3 `peer`, 4 `latest`).
@@ -157,7 +162,18 @@ def run (us root : String) (fuel : Nat) : String :=
       | some (.ok st) => showState st
     | _, _ => "bad-op"
 
+def bit (b : Bool) : String := if b then "1" else "0"
+
+def classify (us : String) : String :=
+  match parseUniverse us with
+  | none => "bad-op"
+  | some u =>
+    s!"ok wf={bit (decide (Props.C06.WF u))} aliasfree={bit (decide (Props.C06.AliasFree u))} " ++
+    s!"latestlast={bit (decide (Props.C06.LatestLast u))} optplain={bit (decide (Props.C06.OptPlain u))} " ++
+    s!"bundlefree={bit (!hasBundles u)}"
+
 def handle : List String → String
+  | ["classify", _t, us] => classify us
   | ["resolve", _t, us, root, fuel] =>
     if fuel.startsWith "fuel=" then
       match ((fuel.drop 5).toString).toNat? with
